@@ -9,6 +9,7 @@
    The character-level regular expressions, the PEG grammars (parsimonious) and Jinja
    are glue: exercised by the correspondence run of harness/C04.py, NOT modelled. *)
 From Coq Require Import ZArith List String Bool Ring.
+From Verif Require Import lib.MakersSyntax gen.MakersGen model.Makers proofs.MakersProofs.
 From Verif Require Import lib.PyRange lib.LangSyntax gen.PseudoGen model.Lang proofs.LangProofs proofs.LangStyleProofs.
 Import ListNotations.
 Open Scope Z_scope.
@@ -165,6 +166,89 @@ Theorem C04_log_status : forall (allbut : bool) (logs : list string) (d : decl),
     then Some (xorb allbut (mem_s (d_name d) logs)) else None.
 Proof. exact log_status_spec. Qed.
 Print Assumptions C04_log_status.
+
+(* 7. the compiled functions (makers.make_function, model/Makers.v; mk_cache, mk_func_str_parts, mk_prepare_steps,
+      mk_adaptation_names, eq_... regenerated from makers.py, aldi/adaptations.py, equators/plain.py on every run).
+      V: Python objects, F: function objects, exec_def: Python's exec of the text of a def in a globals dict (black box).
+      In EVERY session of calls (any number of models, any order, any contexts) every call returns the function, the
+      text and the globals that its own request (text, context) determines: nothing leaks from one compilation into
+      another *)
+Theorem C04_session_results : forall (V F : Type) (v_empty_dict : V) (v_adapt : string -> V) (v_fun : F -> V)
+    (exec_def : string -> string -> dict V -> F) (reqs : list (request V)),
+  run_session V F v_empty_dict v_adapt v_fun exec_def reqs = map (Makers.compile V F v_empty_dict v_adapt v_fun exec_def) reqs.
+Proof. exact session_results. Qed.
+Print Assumptions C04_session_results.
+
+Theorem C04_session_history_irrelevant : forall (V F : Type) (v_empty_dict : V) (v_adapt : string -> V) (v_fun : F -> V)
+    (exec_def : string -> string -> dict V -> F) (pre1 post1 pre2 post2 : list (request V)) (r : request V),
+  nth_error (run_session V F v_empty_dict v_adapt v_fun exec_def (pre1 ++ r :: post1)) (List.length pre1)
+    = Some (Makers.compile V F v_empty_dict v_adapt v_fun exec_def r) /\
+  nth_error (run_session V F v_empty_dict v_adapt v_fun exec_def (pre2 ++ r :: post2)) (List.length pre2)
+    = nth_error (run_session V F v_empty_dict v_adapt v_fun exec_def (pre1 ++ r :: post1)) (List.length pre1).
+Proof. exact session_history_irrelevant. Qed.
+Print Assumptions C04_session_history_irrelevant.
+
+(*    the function of the k-th request is its text compiled in globals in which every name of ITS context (a user
+      function) that is not a function adaptation is bound to the object that context binds it to *)
+Theorem C04_session_function_context : forall (V F : Type) (v_empty_dict : V) (v_adapt : string -> V) (v_fun : F -> V)
+    (exec_def : string -> string -> dict V -> F) (reqs : list (request V)) (k : nat) (r : request V) (n : string),
+  nth_error reqs k = Some r ->
+  NoDup (map fst (rq_ctx V r)) -> ~ In n mk_adaptation_names -> n <> "__builtins__"%string ->
+  exists res, nth_error (run_session V F v_empty_dict v_adapt v_fun exec_def reqs) k = Some res
+    /\ rs_func V F res = exec_def (func_str V r) (rq_name V r) (prepare_globals V v_empty_dict v_adapt (rq_ctx V r))
+    /\ dict_get n (prepare_globals V v_empty_dict v_adapt (rq_ctx V r)) = dict_get n (rq_ctx V r).
+Proof. exact session_function_context. Qed.
+Print Assumptions C04_session_function_context.
+
+Theorem C04_globals_bind_adaptations : forall (V : Type) (v_empty_dict : V) (v_adapt : string -> V) (ctx : dict V) (n : string),
+  In n mk_adaptation_names -> dict_get n (prepare_globals V v_empty_dict v_adapt ctx) = Some (v_adapt n).
+Proof. exact globals_bind_adaptations. Qed.
+Print Assumptions C04_globals_bind_adaptations.
+
+(*    any module-level table keyed by something that determines the compiled function is invisible ... *)
+Theorem C04_keyed_session_independent : forall (V F : Type) (v_empty_dict : V) (v_adapt : string -> V) (v_fun : F -> V)
+    (exec_def : string -> string -> dict V -> F) (key : request V -> string),
+  (forall r1 r2, key r1 = key r2 -> Makers.compile V F v_empty_dict v_adapt v_fun exec_def r1
+                                   = Makers.compile V F v_empty_dict v_adapt v_fun exec_def r2) ->
+  forall reqs tb, table_sound V F v_empty_dict v_adapt v_fun exec_def key tb ->
+  run_session_keyed V F v_empty_dict v_adapt v_fun exec_def (Some key) tb reqs
+  = map (Makers.compile V F v_empty_dict v_adapt v_fun exec_def) reqs.
+Proof. exact keyed_session_independent. Qed.
+Print Assumptions C04_keyed_session_independent.
+
+(*    ... and one keyed by the source text alone is not (seeded change C04_r3m2): the second of two models with the
+      same equations gets the user function of the first *)
+Theorem C04_cache_by_source_refuted :
+  map s_observe (s_run CacheBySource refuting_requests) <> map s_observe (s_run CacheNone refuting_requests)
+  /\ (exists g, option_map (fun o => dict_get "f" (snd o)) (nth_error (map s_observe (s_run CacheBySource refuting_requests)) 1) = Some g
+               /\ g = Some "<f one>"%string)
+  /\ option_map (fun o => dict_get "f" (snd o)) (nth_error (map s_observe (s_run CacheNone refuting_requests)) 1)
+     = Some (Some "<f two>"%string).
+Proof. exact cache_by_source_refuted. Qed.
+Print Assumptions C04_cache_by_source_refuted.
+
+(*    copies / unpickling (remake_function) and the equators of all the models of a session *)
+Theorem C04_remake_is_make : forall (V F : Type) (v_empty_dict : V) (v_adapt : string -> V) (v_fun : F -> V)
+    (exec_def : string -> string -> dict V -> F) (r : request V),
+  remake_function V F v_empty_dict v_adapt exec_def (rq_name V r)
+     (rs_str V F (Makers.compile V F v_empty_dict v_adapt v_fun exec_def r)) (rq_ctx V r)
+  = rs_func V F (Makers.compile V F v_empty_dict v_adapt v_fun exec_def r).
+Proof. exact remake_is_make. Qed.
+Print Assumptions C04_remake_is_make.
+
+Theorem C04_equators_of_session : forall (V F : Type) (v_empty_dict : V) (v_adapt : string -> V) (v_fun : F -> V)
+    (exec_def : string -> string -> dict V -> F) (models : list (list (list string) * dict V)),
+  run_session V F v_empty_dict v_adapt v_fun exec_def (List.concat (map (model_requests V) models))
+  = List.concat (map (fun m => map (fun xs => Makers.compile V F v_empty_dict v_adapt v_fun exec_def (equator_request V xs (snd m))) (fst m)) models).
+Proof. exact equators_of_session. Qed.
+Print Assumptions C04_equators_of_session.
+
+Example C04_session_example :
+  map (fun o => dict_get "f" (snd o)) (s_session (refuting_requests ++ [mkReq SV "g" ["a"] "f(a)" [("log", "<user log>"); ("f", "<f three>")]]))
+  = [Some "<f one>"; Some "<f two>"; Some "<f three>"]%string
+  /\ map (fun o => fst (fst o)) (s_session [mkReq SV "g" ["a"; "b"] "f(a)" []]) = ["def g(a, b): return f(a)"]%string
+  /\ map (fun o => dict_get "log" (snd o)) (s_session [mkReq SV "g" ["a"] "f(a)" [("log", "<user log>")]]) = [Some "adapt:log"%string].
+Proof. exact session_example. Qed.
 
 (* non-vacuity: a lawful carrier exists; a source with a loop, a conditional inside an equation, a
    pseudofunction, a shock, a log list with !all-but compiles to the expected model *)
